@@ -142,7 +142,9 @@ def coq_op(op):
 def coq_pass(p):
     ops = '[' + '; '.join(coq_op(o) for o in p.ops) + ']' if p.ops else '(@nil op)'
     nf = 'None' if p.newfix is None else f'(Some {coq_content(p.newfix)})'
-    return f'(mksp {p.key}%N {p.max_transforms or 0} {ops} {p.aos} {nf})'
+    # repr(pass) = class::key plus ' (N T)' when max_transforms is set: both are part of the cache key
+    key = p.key * 1000 + (0 if p.max_transforms is None else p.max_transforms + 1)
+    return f'(mksp {key}%N {p.max_transforms or 0} {ops} {p.aos} {nf})'
 
 
 def coq_atom(a):
@@ -158,7 +160,7 @@ def coq_atom(a):
 
 def coq_rules(rules):
     def out(o):
-        return 'Timeout' if o == 'timeout' else f'(Exit ({o})%Z)'
+        return 'Timeout' if o == 'timeout' else 'NoRun' if o == 'norun' else f'(Exit ({o})%Z)'
     items = []
     for atoms, o in rules:
         al = '[' + '; '.join(coq_atom(a) for a in atoms) + ']' if atoms else '(@nil atom)'
